@@ -148,6 +148,24 @@ Theorem C13_zero_delay_pingresp_answers : forall I T uzrs, 0 < I ->
    pings (keepalive I T (wire_outcomes uzrs)) = length uzrs).
 Proof. exact zero_delay_pingresp_answers. Qed.
 
+(* for the reconnecting client: "a ping every INTERVAL", "each response within the TIMEOUT" —
+   KeepAlive gets (PingInterval, Timeout) in this order (reconnclient.go:124-128): its keep-alive
+   is [keepalive PingInterval Timeout]; a peer answering every ping in less than Timeout, however
+   much more than PingInterval, is never dropped, ping j is not sent before j*PingInterval and
+   the first exactly then; a peer needing Timeout or more is reported at that ping *)
+Theorem C13_reconnect_interval_then_timeout : forall o ds, 0 < ro_ping_interval o ->
+  let I := ro_ping_interval o in let T := ro_timeout o in
+  rc_keepalive_peer o (map Some ds) = Some (keepalive I T (map (peer_outcome T) (map Some ds))) /\
+  (Forall (fun d => d < T) ds ->
+     forall out, rc_keepalive_peer o (map Some ds) = Some out ->
+     ko_result out = KA_running /\ pings out = length ds /\
+     (forall j t, nth_error (ko_starts out) j = Some t -> N.of_nat (S j) * I <= t) /\
+     (ds <> [] -> nth_error (ko_starts out) 0 = Some I)) /\
+  (forall pre d post, Forall (fun d => d < T) pre -> T <= d ->
+     forall out, rc_keepalive_peer o (map Some (pre ++ d :: post)) = Some out ->
+     ko_result out = KA_returned EPingTimeout /\ pings out = S (length pre)).
+Proof. exact reconnect_interval_then_timeout. Qed.
+
 (* time.NewTicker's panic on a non-positive interval is unreachable from the reconnecting client *)
 Theorem C13_no_panic_from_reconnect : forall I T s o, rc_keepalive I T s = Some o -> ko_result o <> KA_panic.
 Proof. exact rc_keepalive_no_panic. Qed.
@@ -179,3 +197,4 @@ Print Assumptions C13_model_times_are_lower_bounds.
 Print Assumptions C13_caller_cancel_after_connect_irrelevant.
 Print Assumptions C13_stale_pingresp_inert.
 Print Assumptions C13_zero_delay_pingresp_answers.
+Print Assumptions C13_reconnect_interval_then_timeout.
